@@ -57,6 +57,8 @@ def classify_exception(ex: BaseException, module: str) -> str:
     import traceback
     if isinstance(ex, (SymKeyError, SymIndexError)):
         return "raised"
+    if isinstance(ex, ValueError) and (str(ex).startswith("too many values to unpack") or str(ex).startswith("not enough values to unpack")):
+        return "raised"          # unpacking a sequence of another length: the real code raises exactly this
     tb = traceback.extract_tb(ex.__traceback__)
     if tb and tb[-1].filename.startswith("<hoare:"):
         try:
@@ -69,6 +71,11 @@ def classify_exception(ex: BaseException, module: str) -> str:
 
 
 class _Continue(Exception):
+    def __init__(self, lid):
+        self.lid = lid
+
+
+class _Break(Exception):
     def __init__(self, lid):
         self.lid = lid
 
@@ -261,6 +268,8 @@ def explore(sess: Session, base: Sequence[z3.ExprRef], run: Callable[[Ctx], Any]
 def _z(x):
     if isinstance(x, Rv):
         return x.e
+    if z3.is_expr(x):
+        return x
     if isinstance(x, bool):
         return z3.IntVal(int(x))
     if isinstance(x, int):
@@ -779,6 +788,50 @@ class SymList:
         raise Unsupported("iteration over a symbolic list outside a `for` statement")
 
 
+class SymSeq:
+    """a list that is only consumed: the items arr[start:end] of an immutable sequence (the lines of a file).  pop(0), truth
+    value, len, [k:] -- what line-oriented parsers do.  `make` turns an item term into the object the code sees."""
+
+    def __init__(self, name, arr, start, end, make):
+        self.name, self.arr, self.start, self.end, self.make = name, arr, _z(start), _z(end), make
+        ctx().state[f"{name}#{next(ctx().fresh)}"] = self
+
+    def __bool__(self):
+        return ctx().decide(self.start < self.end, f"{self.name} is not empty")
+
+    def length(self):
+        return Rv(z3.simplify(self.end - self.start))
+
+    def pop(self, k=-1):
+        if not (isinstance(k, int) and k == 0):
+            raise Unsupported("pop other than pop(0) on a consumed sequence")
+        if not ctx().decide(self.start < self.end, f"{self.name} is not empty"):
+            raise SymIndexError("pop from empty list")
+        item = self.make(z3.Select(self.arr, self.start))
+        self.start = z3.simplify(self.start + 1)
+        return item
+
+    def __getitem__(self, k):
+        if isinstance(k, slice) and k.stop is None and k.step is None and isinstance(k.start, int) and k.start >= 0:
+            ns = z3.If(self.start + k.start < self.end, self.start + k.start, self.end)
+            return SymSeq(self.name, self.arr, z3.simplify(ns), self.end, self.make)
+        if isinstance(k, (int, Rv)) and not isinstance(k, bool):
+            kz = _z(k)
+            if not ctx().decide(z3.And(kz >= 0, self.start + kz < self.end), "index in range"):
+                raise SymIndexError("list index out of range")
+            return self.make(z3.Select(self.arr, z3.simplify(self.start + kz)))
+        raise Unsupported("this subscript of a consumed sequence")
+
+    def snapshot(self):
+        return (self.start, self.end)
+
+    def havoc(self):
+        self.start = z3.Int(f"{self.name}.start!{next(ctx().fresh)}")
+
+    def __iter__(self):
+        raise Unsupported("iteration over a consumed sequence outside a `for` statement")
+
+
 class Log(list):
     """a real Python list that records what is appended (lines of output); havoc = forget the prefix"""
 
@@ -884,6 +937,7 @@ class VC:
     def __init__(self, specs: LoopSpecs, space: NodeSpace):
         self.specs, self.space = specs, space
         self.Continue = _Continue
+        self.Break = _Break
 
     def is_concrete(self, it):
         if isinstance(it, (SymDict, SymList, ChildList, ChildIter, Enum, Rev, ListOf, Filtered, Mapped, RangeSeq, NodeBase)):
@@ -937,7 +991,7 @@ class VC:
             raise Unsupported(f"loop {ordinal} of {fn} has no invariant")
         env = LoopEnv(lid, seq, dict(loc), snapshot_all(c))
         env.inv = inv
-        env.kindseq = self._classify(seq)
+        env.kindseq = ("while",) if isinstance(ordinal, str) else self._classify(seq)
         # initial check
         self._bind_counters(env, start=True)
         env.loc = dict(loc)
@@ -973,6 +1027,8 @@ class VC:
     def _bind_counters(self, env, start=False):
         c = ctx()
         k = env.kindseq
+        if k[0] == "while":
+            return
         if k[0] == "indexed":
             env.n = k[1].length().e
             env.i = z3.IntVal(0) if start else z3.Int(f"i!{next(c.fresh)}")
@@ -1053,7 +1109,7 @@ class VC:
         env.entry_step = env.pre_step
         if env.kindseq[0] == "indexed":
             env.i = env.i + 1
-        else:
+        elif env.kindseq[0] == "keys":
             env.seen = z3.Store(env.seen, env.key, z3.BoolVal(True))
         env.loc = dict(loc)
         c.canary(f"{fn} loop {ordinal}, after a generic iteration")
@@ -1119,12 +1175,37 @@ class _Rewriter(ast.NodeTransformer):
         # decision pruned by the path condition; the exploration ends because continuing becomes infeasible); the contract has to
         # name such loops, everything else is unsupported
         self.wordinal = getattr(self, "wordinal", 0) + 1
-        if (self.label, self.wordinal) not in getattr(self, "bounded_whiles", ()):
-            raise Unsupported(f"while loop {self.wordinal} in {self.fn}")
-        if any(isinstance(n, (ast.Break, ast.Continue)) for n in ast.walk(node)) or node.orelse:
-            raise Unsupported(f"break/continue/else in while loop {self.wordinal} of {self.fn}")
-        self.generic_visit(node)
-        return node
+        if node.orelse:
+            raise Unsupported(f"while/else in {self.fn}")
+        if (self.label, self.wordinal) in getattr(self, "bounded_whiles", ()):
+            if any(isinstance(n, (ast.Break, ast.Continue)) for n in ast.walk(node)):
+                raise Unsupported(f"break/continue in the bounded while loop {self.wordinal} of {self.fn}")
+            self.generic_visit(node)
+            return node
+        # any other `while` is a cut point with a sidecar invariant over the state (no counter): invariant on entry, havoc, assume,
+        # one generic iteration under the condition (-> invariant again, path ends) or exit under its negation; `break` leaves
+        # with the state it has
+        lid = (self.label, f"w{self.wordinal}")
+        self.loop_stack.append(lid)
+        body = [self.visit(s) for s in node.body]
+        body = [s for b in body for s in (b if isinstance(b, list) else [b])]
+        self.loop_stack.pop()
+        L = f"__W{self.wordinal}"
+        stored = _stored_names(node.body)
+        pre = [f"{L} = __vc.loop_enter({lid!r}, None, locals())"]
+        for n in stored:
+            pre.append(f"{n} = __vc.havoc_local({L}, {n!r}, locals())")
+        pre.append(f"__vc.loop_havoc({L}, locals())")
+        cut = ast.parse("\n".join(pre)).body
+        guard = ast.parse(f"try:\n    if __COND__:\n        try:\n            pass\n        except __vc.Continue as __c:\n            if __c.lid != {lid!r}: raise\n        __vc.loop_step({L}, locals())\nexcept __vc.Break as __b:\n    if __b.lid != {lid!r}: raise\n__vc.loop_exit({L}, locals())").body
+        iff = guard[0].body[0]
+        iff.test = self.visit(node.test)
+        iff.body[0].body = body or [ast.Pass()]
+        out = cut + guard
+        for s in out:
+            ast.copy_location(s, node)
+            ast.fix_missing_locations(s)
+        return out
 
     def visit_BinOp(self, node):
         self.generic_visit(node)
@@ -1143,7 +1224,9 @@ class _Rewriter(ast.NodeTransformer):
         return node
 
     def visit_Break(self, node):
-        raise Unsupported(f"break in {self.fn}")
+        if not self.loop_stack or not str(self.loop_stack[-1][1]).startswith("w"):
+            raise Unsupported(f"break out of a for loop in {self.fn}")
+        return ast.parse(f"raise __vc.Break({self.loop_stack[-1]!r})").body[0]
 
     def visit_Continue(self, node):
         lid = self.loop_stack[-1]
@@ -1361,6 +1444,8 @@ def strip_all_annotations(fn: ast.FunctionDef) -> ast.FunctionDef:
 
 def base_namespace(space: NodeSpace) -> Dict[str, Any]:
     def s_len(x):
+        if hasattr(x, "length") and not isinstance(x, (ChildList, SymList, Mapped, RangeSeq)):
+            return x.length()
         if isinstance(x, (ChildList, SymList, Mapped, RangeSeq)):
             return x.length()
         return builtins.len(x)
